@@ -57,14 +57,11 @@ try:
             res["suite_summary"] = r.stdout[-400:]
         res["checks"] = {}
         save = tempfile.mkdtemp(prefix="evsave.", dir="/tmp")
-        shutil.copytree("/verif/evidence", os.path.join(save, "evidence"))
         for c in checks:
-            r = subprocess.run(["/verif/check", c], env=dict(os.environ, VERIF_REPO=wt), stdout=subprocess.PIPE,
+            r = subprocess.run(["/verif/check", c], env=dict(os.environ, VERIF_REPO=wt, VERIF_OUT_DIR=save), stdout=subprocess.PIPE,
                                stderr=subprocess.STDOUT, text=True)
             lines = [l for l in r.stdout.splitlines() if l.startswith(("VIOLATION", "KNOWN", "INCONCLUSIVE", "  mechanism")) or " tier=" in l]
             res["checks"][c] = {"exit": r.returncode, "lines": [l[:300] for l in lines][:8]}
-        shutil.rmtree("/verif/evidence")
-        shutil.copytree(os.path.join(save, "evidence"), "/verif/evidence")
         shutil.rmtree(save)
 finally:
     subprocess.call(["git", "-C", "/repo", "worktree", "remove", "--force", wt])
